@@ -157,19 +157,19 @@ Qed.
    no '%' *)
 Theorem raw_path_unescapes : forall bp segs,
   forallb (fun c => negb (ascii_eqb c pct)) bp = true ->
-  Forall (fun s => match s with PLit l => forallb (fun c => negb (ascii_eqb c pct)) l = true | PVal _ => True end) segs ->
+  Forall (fun s => match s with WLit l => forallb (fun c => negb (ascii_eqb c pct)) l = true | WVal _ => True end) segs ->
   unescape false (raw_path bp segs) = Some (bp ++ flat_map (fun s => slash :: seg_text s) segs).
 Proof.
   intros bp segs Hbp Hs. unfold raw_path.
   apply (unescape_app false (length bp)); [lia | now apply unescape_plain |].
   induction Hs as [|s segs Hs1 Hs2 IH]; [reflexivity|].
   cbn [flat_map].
-  change (slash :: match s with PLit l => l | PVal v => path_escape v end) with
-         ([slash] ++ match s with PLit l => l | PVal v => path_escape v end).
+  change (slash :: match s with WLit l => l | WVal v => path_escape v end) with
+         ([slash] ++ match s with WLit l => l | WVal v => path_escape v end).
   change (slash :: seg_text s) with ([slash] ++ seg_text s).
   rewrite <- !app_assoc.
   apply (unescape_app false 1); [cbn; lia | reflexivity |].
-  apply (unescape_app false (length (match s with PLit l => l | PVal v => path_escape v end))); [lia | | exact IH].
+  apply (unescape_app false (length (match s with WLit l => l | WVal v => path_escape v end))); [lia | | exact IH].
   destruct s as [l|v]; cbn [seg_text]; [now apply unescape_plain | apply path_unescape_escape].
 Qed.
 
